@@ -133,6 +133,8 @@ def r03_13(ctx):
 
 
 def run(ctx):
+    ctx.rule("R03.17", "feed() answers what run() answered (a pause or indicator that arrives with the queue just emptied is still reported) and drops at most one character as BOM")
+    ctx.guard("R03.17", "feed/html", lambda: tr.feed_facts(ctx, "R03.17", "html"))
     ctx.rule("R03.16", "'preprocessing the input stream' (get_preprocessed_char) equals its transcription cell by cell: CR / CR LF -> one LF with the pending-CR flag carried to the next call or chunk, a skipped LF replaced by the character behind it, the flag consulted on every answering path")
     ctx.guard("R03.16", "preprocessing/html", lambda: tr.preprocess_transcription(ctx, "R03.16", "html"))
     ctx.rule("R03.15", "end() runs the state machine over the queue, unconditionally, after setting the end-of-input flag and before eof_step: a look-ahead stash parked by eat() at the very end of the input is re-joined")
